@@ -11,7 +11,7 @@ import (
 // to earlier results.  Every call is compared with a freshly parsed reference evaluated on a
 // copy of the document as it was just before the call.
 func runC05() *RunResult {
-	w := &World{prop: "C05", refInline: true, judgeOutcome: true, checkOld: true}
+	w := &World{prop: "C05", refInline: true, judgeOutcome: true, checkOld: true, selfReentry: true}
 	nt := 1
 	if chance(30) {
 		nt = 2 + rn(3)
